@@ -236,7 +236,11 @@ def run(ctx):
         for presence in lm.PRESENCE:
             for _ in range(nh if presence == "all" else max(1, nh // 3)):
                 hid += 1
-                run_history(ctx, clsname, presence, rng, steps, out, hid)
+                lm.use_table("genome" if hid % 3 == 0 else "small")
+                try:
+                    run_history(ctx, clsname, presence, rng, steps, out, hid)
+                finally:
+                    lm.use_table("small")
     # genotyping protocols, systematically: sources with a mask, ungrouped and grouped along the variant axis (several
     # chromosomes with different numbers of masked-in and masked-out variants), every protocol with and without invert
     for rep in range(6 if thorough else 2):
